@@ -12,6 +12,7 @@ the stub native layer of vlib.platstub (one worker process = one platform).  Per
 """
 import collections
 import collections.abc
+import contextlib
 import errno
 import glob
 import inspect
@@ -310,6 +311,90 @@ def run_op(platform, opname, pid=PID, one=None, from_=None, state="live", pid0_l
     r.faultable = [c for c in w.stub.log if c.faultable]
     r.sleeps = len(w.clock.sleeps)
     return r
+
+
+def run_exit_case(platform, opname, pid, prime, salt=1):
+    """The process exits for real (natives fail with ESRCH, the table-walking ones answer with nothing) before `opname`
+    is called: directly (prime None), or inside a oneshot() block after `prime` was fetched while it was alive."""
+    env = setup(platform)
+    w, ps = env["w"], env["ps"]
+    w.reset(pid=pid, state="live", salt=salt)
+    r = Res()
+    r.kind, r.exc, r.value, r.tb = None, None, None, None
+    with w.vk:
+        p = ps.Process(pid)
+        if opname != "name":
+            p._name = CACHED
+            p._proc._name = CACHED
+        w.silent_exit = True
+        try:
+            with (p.oneshot() if prime else contextlib.nullcontext()):
+                if prime:
+                    env["ops"][prime](p)
+                w.state = "gone"
+                w.stub.arm()
+                try:
+                    v = env["ops"][opname](p)
+                    if isinstance(v, collections.abc.Iterator):
+                        v = list(v)
+                    r.kind, r.value = "value", v
+                except (ps.NoSuchProcess, ps.AccessDenied, ps.TimeoutExpired) as e:
+                    r.kind, r.exc = type(e).__name__, e
+                except OSError as e:
+                    r.kind, r.exc = "OSError", e
+                except BaseException as e:  # noqa: BLE001
+                    r.kind, r.exc = "leak", e
+                    r.tb = traceback.format_exc(limit=6)
+                finally:
+                    w.stub.disarm()
+        finally:
+            w.silent_exit = False
+    r.calls = [c for c in w.stub.log]
+    r.asked = [c.name for c in w.stub.log if c.in_method and not c.recheck and c.name not in
+               setup(platform)["platstub"].SYSTEM_WIDE]
+    return r
+
+
+SETTERS_AND_SIGNALS = {"nice_set", "cpu_affinity_set", "rlimit_set", "ionice_set", "kill", "terminate", "send_signal_term",
+                       "suspend", "resume", "wait0", "oneshot"}
+# Solaris exe(): a failed readlink of /proc/PID/path/a.out is tolerated by design ("" / the cmdline guess, the fault cases
+# above accept it too) and the follow-up cmdline() is legitimately answered from the oneshot cache
+EXIT_DIFF_EXEMPT = {("sunos", "exe"), ("sunos", "exe_layer")}
+EXIT_PRIMES = ("ppid", "status", "cpu_times", "name", "memory_info")
+
+
+def do_exit_case(platform, case, acc):
+    """Call-path differential for a process that exits: oneshot() is a cache, so a method that does go to the kernel
+    inside a oneshot() block must report the exit exactly as it does outside one."""
+    op, pid, prime = case["op"], case.get("pid", PID), case["prime"]
+    plain = run_exit_case(platform, op, pid, None, case.get("salt", 1))
+    inside = run_exit_case(platform, op, pid, prime, case.get("salt", 1))
+    viols = []
+
+    def key(r):
+        if r.kind == "value":
+            return ("value", repr(r.value))
+        # after a successful name() the front end legitimately remembers the real name instead of the planted one
+        return (r.kind, type(r.exc).__name__, getattr(r.exc, "pid", None),
+                getattr(r.exc, "name", None) if prime != "name" else None, getattr(r.exc, "errno", None))
+    compared = False
+    if inside.kind == "leak" or plain.kind == "leak":
+        lk = inside if inside.kind == "leak" else plain
+        viols.append((f"leak:{type(lk.exc).__name__}:{platform}:{op}:after_exit", f"{describe(lk)}\n{lk.tb}"))
+    elif (platform, op) in EXIT_DIFF_EXEMPT:
+        acc.count("exit_in_oneshot_exempt")
+    elif inside.asked:
+        compared = True
+        acc.count("exit_in_oneshot_compared")
+        if key(inside) != key(plain):
+            viols.append((f"oneshot_changes_report_of_exit:{platform}:{op}",
+                          f"{platform} {op}() on a process that has exited: outside oneshot() -> {describe(plain)}; inside a "
+                          f"oneshot() block in which {prime}() was fetched while it was alive -> {describe(inside)}, although the "
+                          f"method did ask the kernel ({inside.asked}) and was not answered from the cache"))
+    else:
+        acc.count("exit_in_oneshot_answered_from_cache")
+    acc.case(case, compared, viols)
+    return viols
 
 
 def describe(r):
@@ -894,22 +979,31 @@ def windows_path_checks(platform, opname, r, w):
     s = w.salt
     if opname in ("L:exe", "L:name", "L:cwd"):
         opname = opname[2:]
-    if opname in ("exe", "exe_layer") and not (v.startswith("C:") and v.endswith("\\Windows\\notepad%d.exe" % s)):
-        out.append(("slot_mismatch:windows:exe", f"exe() -> {v!r}"))
+    ps_ = setup(platform)["platstub"]
+    if opname in ("exe", "exe_layer"):
+        # os.path.join on a posix host puts a "/" between drive and remainder: only drive and remainder are judged
+        drive, rest = ps_.win_drive(s, 0), "\\Windows\\notepad%d.exe" % s
+        if not (v.startswith(drive) and v.endswith(rest) and len(v) <= len(drive) + len(rest) + 1):
+            out.append(("slot_mismatch:windows:exe", f"exe() -> {v!r}; the native name is {ps_.win_device(s, 0) + rest!r} "
+                        f"and QueryDosDevice maps that device to {drive!r}"))
     if opname == "name" and not v.endswith("notepad%d.exe" % s):
         out.append(("slot_mismatch:windows:name", f"name() -> {v!r}"))
     if opname == "cwd" and not v.startswith("C:\\Users\\user%d" % s):
         out.append(("slot_mismatch:windows:cwd", f"cwd() -> {v!r}"))
     if opname == "memory_maps":
         b = 100000 * s
+        drive, rest = ps_.win_drive(s, 1), "\\Windows\\n.dll"
         ok = (len(v) == 1 and v[0]._fields == ("path", "rss") and v[0].rss == 2 * b + 3
-              and v[0].path.startswith("C:") and v[0].path.endswith("\\Windows\\n.dll"))
+              and v[0].path.startswith(drive) and v[0].path.endswith(rest) and len(v[0].path) <= len(drive) + len(rest) + 1)
         if not ok:
-            out.append(("slot_mismatch:windows:memory_maps", f"memory_maps() -> {v!r}"))
+            out.append(("slot_mismatch:windows:memory_maps", f"memory_maps() -> {v!r}; the mapped file is on "
+                        f"{ps_.win_device(s, 1)!r} = {drive!r}"))
     if opname == "memory_maps_ungrouped":
         b = 100000 * s
+        drive, rest = ps_.win_drive(s, 1), "\\Windows\\n.dll"
         ok = ([x._fields for x in v] == [("addr", "perms", "path", "rss")] * 2
-              and [(x.addr, x.perms, x.rss) for x in v] == [("0x400000", "r", b + 1), ("0x800000", "rw", b + 2)])
+              and [(x.addr, x.perms, x.rss) for x in v] == [("0x400000", "r", b + 1), ("0x800000", "rw", b + 2)]
+              and all(x.path.startswith(drive) and x.path.endswith(rest) and len(x.path) <= len(drive) + len(rest) + 1 for x in v))
         if not ok:
             out.append(("slot_mismatch:windows:memory_maps_ungrouped", f"-> {v!r}"))
     return out
@@ -1440,6 +1534,35 @@ def do_record_case(platform, case, acc):
     return r, viols
 
 
+def do_dospaths_case(platform, case, acc):
+    """Windows: processes living on different volumes queried one after the other (the way process_iter() does); some
+    device names are textual prefixes of others.  The order of the queries must not matter."""
+    env = setup(platform)
+    w = env["w"]
+    viols = []
+    for salt, opname in case["seq"]:
+        r = run_op(platform, opname, pid=case.get("pid", PID), salt=salt)
+        for mech, detail in windows_path_checks(platform, opname, r, w):
+            viols.append((mech, f"query {[salt, opname]} of the sequence {case['seq']}: {detail}"))
+        if r.kind != "value":
+            viols.append((f"unexpected_outcome:windows:{opname}", f"query {[salt, opname]}: {describe(r)[:200]}"))
+    acc.count("records_compared", len(case["seq"]))
+    acc.count("windows_volume_sequences")
+    acc.case(case, True, viols[:3])
+    return viols
+
+
+def dospaths_cases(platform, pid, seed):
+    n = 4
+    fwd = [[s0, "exe"] for s0 in range(n, 2 * n)]                    # HarddiskVolume1, 12, 20, 2
+    maps = [[s0, "memory_maps"] for s0 in range(n, 2 * n)]            # 12, 20, 2, 1
+    r = harness.rng_for(seed, "dospaths")
+    mixed = fwd + maps
+    r.shuffle(mixed)
+    return [dict(k="dospaths", platform=platform, pid=pid, seq=fwd + maps + fwd[::-1]),
+            dict(k="dospaths", platform=platform, pid=pid, seq=mixed + [[s0 + n, o] for s0, o in mixed])]
+
+
 def do_fault_case(platform, case, acc, clean=None):
     r, viols = run_fault_case(platform, case, clean)
     fired = bool(r.fired)
@@ -1488,6 +1611,17 @@ def run_shard(shard):
                      natives_faulted=sorted(sites))
         acc.exhaustive = True
     elif kind == "static":
+        # (0) Windows volumes, before anything else has asked about a device in this process
+        if platform == "windows":
+            for case in dospaths_cases(platform, pid, seed):
+                do_dospaths_case(platform, case, acc)
+        # (0b) the process exits: plain call vs. the same call inside a primed oneshot()
+        primes = [a for a in EXIT_PRIMES if a in env["ops"]]
+        for opname in env["ops"]:
+            if opname.startswith("L:") or opname in SETTERS_AND_SIGNALS:
+                continue
+            for prime in (primes if tier == "thorough" else primes[:2]):
+                do_exit_case(platform, dict(k="exit", platform=platform, op=opname, pid=pid, prime=prime, salt=salts[0]), acc)
         # (1) records
         for var in record_variants(platform, tier, env, salts):
             only = var.pop("only", None)
@@ -1540,6 +1674,12 @@ def run_shard(shard):
             elif k == "record":
                 r, viols = do_record_case(platform, case, acc)
                 print("REPLAY", json.dumps(case), "->", describe(r))
+            elif k == "exit":
+                viols = do_exit_case(platform, case, acc)
+                print("REPLAY", json.dumps(case))
+            elif k == "dospaths":
+                viols = do_dospaths_case(platform, case, acc)
+                print("REPLAY", json.dumps(case))
             elif k == "sysfn":
                 compared, viols = run_sysfn(platform, case["fn"], case["salt"], case.get("pid", PID))
                 acc.case(case, compared, viols)
